@@ -1,5 +1,6 @@
 import PyCliffordModel.Model.Poly
 import PyCliffordModel.Model.Torch
+import PyCliffordModel.Model.Device
 /-!
 # Driver — line protocol around the executable model (trusted glue: parsing and printing only)
 
@@ -358,6 +359,17 @@ def circOp (s : Sess) (w : List String) : Option (Sess × String) :=
       match res with
       | .ok (c', x') => pure (s.setC id c', "ok " ++ toString x'.obj.r ++ " " ++ encRows x'.obj.rows ++ " " ++
           toString x'.coins.length ++ " " ++ toString x'.rnd.length)
+      | .error e => pure (s, encErr e)
+  | [id, "snapshot", r, t, coins, maps] => do
+      let c ← s.getC id; let st ← decState r t; let coins ← decBits coins; let maps ← decMaps maps
+      match snapshot1 st c coins maps with
+      | .ok (c', s', outs, k, cs, rnd') => pure (s.setC id c', "ok " ++ toString s'.r ++ " " ++ encRows s'.rows ++ " " ++
+          encInts outs ++ " " ++ toString k ++ " " ++ toString cs.length ++ " " ++ toString rnd'.length)
+      | .error e => pure (s, encErr e)
+  | [id, "povm", maps] => do
+      let c ← s.getC id; let maps ← decMaps maps
+      match povm1 c maps with
+      | .ok (c', z, _) => pure (s.setC id c', "ok " ++ toString z.r ++ " " ++ encRows z.rows)
       | .error e => pure (s, encErr e)
   | [id, "diagpauli", g, i0, causal] => do
       let g ← decStr g; let i0 ← i0.toNat?
